@@ -11,9 +11,11 @@ class Deadlock(Exception):
 
 
 class BatonScheduler:
-    def __init__(self, rng, mean_gap, max_preempt, trace_prefix):
+    def __init__(self, rng, mean_gap, max_preempt, trace_prefix, long_jump=0):
         self.rng = rng
         self.mean_gap = mean_gap            # 0 / None: no pre-emption, only voluntary yields
+        self.long_jump = long_jump          # >0: some countdowns are uniform in [1, long_jump] so that
+                                            # pre-emptions also land deep inside long computations
         self.max_preempt = max_preempt
         self.trace_prefix = trace_prefix
         self.events = {}                    # tid -> threading.Event
@@ -74,7 +76,10 @@ class BatonScheduler:
 
     def _arm(self, tid):
         if self.mean_gap:
-            self._countdown = max(1, int(self.rng.expovariate(1.0 / self.mean_gap)))
+            if self.long_jump and self.rng.random() < 0.25:
+                self._countdown = self.rng.randrange(1, self.long_jump + 1)
+            else:
+                self._countdown = max(1, int(self.rng.expovariate(1.0 / self.mean_gap)))
         else:
             self._countdown = None
 
